@@ -8,9 +8,9 @@ import CaddyModel.C07.Lemmas
 namespace CaddyModel.C07
 
 /-- what has to be true of the filesystem and the configuration for an outcome to be produced -/
-def Justified (fs : FS) (c : Cfg) (path : Bytes) : Outcome → Prop
+def Justified (fs : FS) (c : Cfg) (_path : Bytes) : Outcome → Prop
   | .file p id => UnderS c.rootC p ∧ c.hidden p = false ∧ fs p = .file id
-  | .listing p ns => UnderS c.rootC p ∧ c.hidden p = false ∧ ∃ es, fs p = .dir es ∧ ns = listingNames c path es
+  | .listing p ns => UnderS c.rootC p ∧ c.hidden p = false ∧ ∃ es, fs p = .dir es ∧ ns = listingNames c p es
   | .redirect => True
   | .notFound => c.passThru = false
   | .passThru => c.passThru = true
